@@ -6,6 +6,7 @@
 #include <algorithm>
 #include <cxxabi.h>
 #include <functional>
+#include <cstdlib>
 #include <iostream>
 #include <set>
 #include <typeinfo>
@@ -170,6 +171,13 @@ int main(int argc, char** argv)
    std::string mode = argc > 1 ? argv[1] : "";
    try {
       if (mode == "zoo") return do_zoo();
+   }
+   catch (const std::logic_error& e) {
+      // the library throws logic errors, the harness run-time errors: one that arrives here escaped from a call of the library
+      // where the harness expected none -- recorded like a crash (a terminal event), not as a failure of the harness
+      std::cout.flush();
+      std::cerr << "exception of the library escaped: " << e.what() << "\n";
+      std::abort();
    }
    catch (const std::exception& e) {
       std::cout << "HARNESS-ERROR " << e.what() << "\n";
